@@ -3,7 +3,7 @@
    runner and by vm_compute inside Coq (Cases_*.v). *)
 From Coq Require Import List NArith ZArith Bool String.
 From Coq.Strings Require Import Byte.
-From OAP Require Import Base.Bytes Base.Res Base.Text Gen.Consts Model.Handshake Model.Metadata Model.Header Model.Frame Model.Stream Model.World Model.Ids Model.Waiters Model.Dispatch Model.WritePath Model.Recovery.
+From OAP Require Import Base.Bytes Base.Res Base.Text Gen.Consts Model.Handshake Model.Metadata Model.Header Model.Frame Model.Stream Model.World Model.Ids Model.Waiters Model.Dispatch Model.WritePath Model.Recovery Model.Keepalive.
 Import ListNotations.
 Local Open Scope N_scope.
 
@@ -554,6 +554,37 @@ Definition run_rc (op : bytes) (args : list bytes) : bytes :=
     | _ => bad end
   else bad.
 
+(* ---- keepalive (C15) ----
+   ka.run <timeout ms> <start ms> <event> ...   events: T.<ms>.<ok> tick | P.<ms> pong | R recovered | Q.<id>.<bodyhex> peer ping
+   output: p<id> (ping, heartbeat id = id) | r (recycle) | s (skip) | e<id>:<bodyhex> (echo) joined by space *)
+Definition parse_kact (e : bytes) : option kact :=
+  match e with
+  | k :: rest =>
+      let parts := match rest with "."%byte :: r => split_on "."%byte r | _ => [] end in
+      if byte_eqb k "T"%byte then
+        match parts with [t; ok] => obind (undec t) (fun t => obind (unbool ok) (fun ok => Some (KTick t ok))) | _ => None end
+      else if byte_eqb k "P"%byte then match parts with [t] => option_map KPong (undec t) | _ => None end
+      else if byte_eqb k "R"%byte then Some KRecovered
+      else if byte_eqb k "Q"%byte then
+        match parts with [i; b] => obind (undec i) (fun i => obind (unhex b) (fun b => Some (KPeerPing i b))) | _ => None end
+      else None
+  | [] => None
+  end.
+Definition kevent_s (e : kevent) : bytes :=
+  match e with
+  | KPing id hb => if id =? hb then str "p" ++ dec id else str "p" ++ dec id ++ str "!" ++ dec hb
+  | KRecycle => str "r" | KSkip => str "s" | KEcho id body => str "e" ++ dec id ++ str ":" ++ hex body
+  end.
+Definition run_ka (op : bytes) (args : list bytes) : bytes :=
+  if bytes_eqb op (str "ka.run") then
+    match args with
+    | tmo :: start :: evs =>
+        match undec tmo, undec start, omap_all parse_kact evs with
+        | Some tmo, Some start, Some acts => join sp (map kevent_s (snd (krun tmo (k0 start) acts)))
+        | _, _, _ => bad end
+    | _ => bad end
+  else bad.
+
 Definition run_line (line : bytes) : bytes :=
   match words line with
   | op :: args =>
@@ -566,6 +597,7 @@ Definition run_line (line : bytes) : bytes :=
       else if starts_with (str "dp.") op then run_dp op args
       else if starts_with (str "wp.") op then run_wp op args
       else if starts_with (str "rc.") op then run_rc op args
+      else if starts_with (str "ka.") op then run_ka op args
       else bad
   | [] => bad
   end.
